@@ -13,6 +13,7 @@ package sftp
 // server is run on that prefix alone, and responses / served state / released objects are compared.
 
 import (
+	"crypto/sha1"
 	"encoding/binary"
 	"encoding/hex"
 	"encoding/json"
@@ -986,6 +987,14 @@ func (l *c07Live) finish() {
 	}
 }
 
+// c07Cap keeps huge states (a mutated WRITE may create a large file) comparable but small.
+func c07Cap(s string) string {
+	if len(s) <= 1<<15 {
+		return s
+	}
+	return s[:4096] + fmt.Sprintf("\n... (%d bytes, sha1 %x)", len(s), sha1.Sum([]byte(s)))
+}
+
 // c07Outcome is the result of one (stream, lock-step set) execution.
 type c07Outcome struct {
 	badKey, badMsg string // oracle (a)/(d) violation of this run
@@ -1051,7 +1060,10 @@ func c07Exec(cfg c07Cfg, stream []byte, lock []c07Frame, bound int, firstBad str
 	}
 	out := &c07Outcome{res: res, engineErr: res.EngineError}
 	if first != nil {
-		out.resp, out.partial, out.state = first.resp, first.partial, first.state
+		out.resp, out.partial, out.state = first.resp, first.partial, c07Cap(first.state)
+		for i := range out.resp {
+			out.resp[i] = c07Cap(out.resp[i])
+		}
 		if first.serveErr != nil {
 			out.serveErr = first.serveErr.Error()
 		}
@@ -1579,18 +1591,13 @@ func init() {
 				}
 				js = append(js, reg.Job{Part: "C07/streams", Build: "instr", Args: a, Shards: shards, BudgetS: budget, Label: label})
 			}
-			sub := map[string]string{"subset": "quick"}
-			if tier == "thorough" {
-				sub = map[string]string{}
-			}
 			for _, s := range []string{"rs", "os"} {
 				for _, al := range []string{"0", "1"} {
-					lab := s + " alloc=" + al + " db0"
+					budget := 100
 					if tier == "thorough" {
-						j(lab+" all mutations", s, al, sub, 16, 900)
-					} else {
-						j(lab+" covering subset", s, al, sub, 8, 80)
+						budget = 600
 					}
+					j(s+" alloc="+al+" db0 all mutations", s, al, nil, 16, budget)
 				}
 			}
 			// D8: allocator with a tx packet limit above the page size
